@@ -45,6 +45,11 @@ Consume ==
               /\ pc[t] = "Fin"
               /\ (ev.op \in {"Load", "LoadOrStore", "LoadAndStore", "LoadOrCompute", "Compute", "LoadAndDelete"} => LastRes(t).rv = ev.rv /\ LastRes(t).ok = ev.ok)
               /\ (ev.op \in {"LoadOrCompute", "Compute"} => fncalls[t] = ev.n)
+              \* a traversal must have visited exactly the pairs the specification's traversal collected along the same schedule
+              /\ (ev.op = "Range" =>
+                    LET sv == {rvis[t][i] : i \in DOMAIN rvis[t]} IN
+                      /\ {[k |-> p.k, v |-> p.v] : p \in {q \in sv : q.k \notin BallastKeys}} = {[k |-> ev.vis[i].k, v |-> ev.vis[i].v] : i \in DOMAIN ev.vis}
+                      /\ Cardinality({q \in sv : q.k \in BallastKeys}) = ev.n)
               /\ thr(t)
          [] ev.ev = "final" ->
               /\ \A x \in Threads : pc[x] = "Done"
